@@ -87,6 +87,8 @@ pub struct AstCfg {
     pub size: u32,
     /// literal strategy
     pub rich_literals: bool,
+    /// also use D6 words (inf, nan, out-of-range integer literals) as opaque operands
+    pub opaque: bool,
 }
 
 impl AstCfg {
@@ -102,9 +104,24 @@ impl AstCfg {
             depth,
             size: 40,
             rich_literals: false,
+            opaque: false,
         }
     }
 }
+
+/// D6 words: the documentation does not say whether they are numbers or identifiers.
+pub const D6_WORDS: [&str; 10] = [
+    "inf",
+    "nan",
+    "NaN",
+    "Infinity",
+    "9223372036854775808",
+    "99999999999999999999",
+    "0x8000000000000000",
+    "0xFFFFFFFFFFFFFFFF",
+    "0xdeadbeefdeadbeef",
+    "0x10000000000000000",
+];
 
 pub fn arb_literal(rich: bool) -> BoxedStrategy<Ast> {
     if rich {
@@ -152,10 +169,12 @@ fn arb_elems(inner: BoxedStrategy<Ast>) -> BoxedStrategy<Vec<Ast>> {
 pub fn arb_ast(cfg: &AstCfg) -> BoxedStrategy<Ast> {
     let vars = cfg.vars.clone();
     let funcs = cfg.funcs.clone();
-    let leaf = prop_oneof![
-        3 => arb_literal(cfg.rich_literals),
-        3 => select(vars.clone()).prop_map(Ast::Var),
-    ];
+    let mut leaves: Vec<(u32, BoxedStrategy<Ast>)> =
+        vec![(6, arb_literal(cfg.rich_literals)), (6, select(vars.clone()).prop_map(Ast::Var).boxed())];
+    if cfg.opaque {
+        leaves.push((1, select(D6_WORDS.to_vec()).prop_map(|w| Ast::Opaque(w.to_string())).boxed()));
+    }
+    let leaf = proptest::strategy::Union::new_weighted(leaves);
     let assignments = cfg.assignments;
     let sequences = cfg.sequences;
     leaf.prop_recursive(cfg.depth, cfg.size, 4, move |inner| {
@@ -232,6 +251,7 @@ pub fn arb_soup_token() -> BoxedStrategy<Tok> {
         3 => arb_float().prop_map(|f| Tok::Float(if f.is_finite() { f.abs() } else { 2.5 })),
         1 => any::<bool>().prop_map(Tok::Bool),
         2 => arb_text().prop_map(Tok::Str),
+        1 => select(D6_WORDS.to_vec()).prop_map(|w| Tok::Opaque(w.to_string())),
     ]
     .boxed()
 }
@@ -240,7 +260,8 @@ pub fn arb_soup(max_len: usize) -> BoxedStrategy<Vec<Tok>> {
     pvec(arb_soup_token(), 0..max_len).boxed()
 }
 
-const RAW_ATOMS: [&str; 64] = [
+const RAW_ATOMS: [&str; 71] = [
+    "0xFFFFFFFFFFFFFFFF", "0x8000000000000000", "0x10000000000000000", "0xdeadbeefdeadbeef", "18446744073709551615", "-9223372036854775808", "Infinity",
     "+", "-", "*", "/", "%", "^", "(", ")", ",", ";", "=", "!", "<", ">", "&", "|", "&&", "||", "==", "!=", "<=", ">=",
     "+=", "-=", "&&=", "||=", "\"", "\\", "\\\"", "//", "/*", "*/", "\n", " ", "\t", "\u{a0}", "a", "b", "f", "x", "1",
     "0", "9223372036854775807", "9223372036854775808", "0x", "0xff", "0x7fffffffffffffff", "1e", "e", "E", ".", "1.", ".5",
